@@ -49,6 +49,12 @@ func fetchURL(url, baseURL string) ([]byte, string, error) {
 
 // Find rules among stylesheet rules and imports.
 func findStylesheetsRules(rules []pa.Compound, baseUrl string) (out []pa.QualifiedRule) {
+	return findStylesheetsRulesIn(rules, baseUrl, map[string]bool{})
+}
+
+// [importing] is the set of the stylesheets being imported, used to break
+// cyclic imports
+func findStylesheetsRulesIn(rules []pa.Compound, baseUrl string, importing map[string]bool) (out []pa.QualifiedRule) {
 	for _, rule := range rules {
 		switch rule := rule.(type) {
 		case pa.AtRule:
@@ -69,8 +75,14 @@ func findStylesheetsRules(rules []pa.Compound, baseUrl string) (out []pa.Qualifi
 					continue
 				}
 
+				if importing[resolvedURL] {
+					logger.WarningLogger.Printf("cyclic @import of %s ignored", resolvedURL)
+					continue
+				}
+				importing[resolvedURL] = true
 				stylesheet := pa.ParseStylesheetBytes(cssContent, true, true)
-				out = append(out, findStylesheetsRules(stylesheet, resolvedURL)...)
+				out = append(out, findStylesheetsRulesIn(stylesheet, resolvedURL, importing)...)
+				delete(importing, resolvedURL)
 			}
 			// if rule.AtKeyword.Lower() == "media":
 		case pa.QualifiedRule:
